@@ -352,6 +352,72 @@ func TestCheck(t *testing.T) {
 		})
 	})
 
+	// Phase A6: probes whose distance in days from the lower bound is an alias of a distance inside the interval modulo 2^8, 2^16,
+	// 2^32, and the first and last representable dates as bounds and probes.
+	r.Phase("A6: intervals of 0..300 days probed at the bounds plus k x 256 / 65536 days (+-2), and the first / last representable dates as bounds and probes", func() {
+		lows := []YMD{{2020, 1, 1}, {2019, 12, 15}, {2024, 2, 29}, {1, 1, 1}, {9999, 1, 1}, {-1, 12, 31}}
+		r.Parallel(int64(len(lows)), 1, func(w *vkit.W, lo, hi int64) {
+			for li := lo; li < hi; li++ {
+				f := lows[li]
+				for _, span := range []int64{0, 1, 30, 31, 127, 128, 254, 255, 256, 257, 300} {
+					ty, tm, td := ref.CivilFromDays(f.ord() + span)
+					t := YMD{ty, tm, td}
+					var probes []YMD
+					for _, k := range []int64{0, 1, 2, 3, 255, 256, 257, 65535, 65536, 65537} {
+						for _, base := range []int64{0, span, span / 2} {
+							for _, unit := range []int64{256, 65536} {
+								for dlt := int64(-2); dlt <= 2; dlt++ {
+									for _, sign := range []int64{1, -1} {
+										o := f.ord() + base + sign*k*unit + dlt
+										y, m, d := ref.CivilFromDays(o)
+										if y > -2000000000 && y < 2000000000 {
+											probes = append(probes, YMD{y, m, d})
+										}
+									}
+								}
+							}
+						}
+					}
+					for shape := 1; shape <= 3; shape++ {
+						c := Case{Probes: probes, Scribble: probes[int(span)%len(probes)]}
+						if shape&1 != 0 {
+							ff := f
+							c.From = &ff
+						}
+						if shape&2 != 0 {
+							tt := t
+							c.To = &tt
+						}
+						judge(c, w)
+						w.EvalN(int64(len(probes)), int64(len(probes)))
+					}
+				}
+			}
+		})
+		// the ends of the representable range (the year field holds the calendar year minus one in 32 bits)
+		first, last := YMD{-2147483647, 1, 1}, YMD{2147483648, 12, 31}
+		ends := []YMD{first, {-2147483647, 1, 2}, {-2147483647, 12, 31}, {-2147483646, 1, 1}, {0, 1, 1}, {2147483647, 12, 31}, {2147483648, 1, 1}, {2147483648, 12, 30}, last}
+		r.Serial(func(w *vkit.W) {
+			for i := range ends {
+				for j := range ends {
+					for shape := 1; shape <= 3; shape++ {
+						c := Case{Probes: ends, Scribble: YMD{int64(i - j), 6, 15}} // (the scribble date is shifted by a few days: kept away from the ends)
+						if shape&1 != 0 {
+							ff := ends[i]
+							c.From = &ff
+						}
+						if shape&2 != 0 {
+							tt := ends[j]
+							c.To = &tt
+						}
+						judge(c, w)
+						w.EvalN(int64(len(ends)), int64(len(ends)))
+					}
+				}
+			}
+		})
+	})
+
 	nRand := int64(r.Pick(200000, 20000000))
 	r.Phase(fmt.Sprintf("B: %d seeded random triples over years 0000-9999", nRand), func() {
 		r.Parallel(nRand, 4096, func(w *vkit.W, lo, hi int64) {
